@@ -348,7 +348,7 @@ func TestC08(t *testing.T) {
 	if frac < 0.30 {
 		rec.Inconclusive(t, "only %.1f%% of the pairs are related (target >= 30%%)", 100*frac)
 	}
-	rec.RequireClasses(t, "triple:premise-true/chain", "triple:premise-true/pool", "outcome:subtype", "outcome:not-subtype",
+	requireClasses(t, rec, "triple:premise-true/chain", "triple:premise-true/pool", "outcome:subtype", "outcome:not-subtype",
 		"sub-root:reference", "sub-root:intersection", "sub-root:function", "super-root:intersection", "super-root:interface",
 		"super-root:capability", "super-root:range", "sub-root:attachment")
 }
